@@ -290,9 +290,9 @@ fn parse_quoted_string(
                             c2
                         }
                         '`' => c2,
-                        'x' | 'u' | 'U' => {
+                        'x' | 'X' | 'u' | 'U' => {
                             let length = match c2 {
-                                'x' => 2,
+                                'x' | 'X' => 2,
                                 'u' => 4,
                                 'U' => 8,
                                 _ => unreachable!(),
